@@ -50,38 +50,50 @@ func New(opts Options) *Dir {
 func (d *Dir) Write(files map[string][]byte) error {
 	newDir := filepath.Join(d.base, fmt.Sprintf("%d-%s", time.Now().UTC().UnixNano(), d.targetDir))
 
+	verifPoint("before-mkdir-base")
 	if err := os.MkdirAll(d.base, os.ModePerm); err != nil {
 		return err
 	}
+	verifPoint("after-mkdir-base")
 
+	verifPoint("before-mkdir-version")
 	if err := os.MkdirAll(newDir, os.ModePerm); err != nil {
 		return err
 	}
+	verifPoint("after-mkdir-version")
 
 	for file, b := range files {
 		path := filepath.Join(newDir, file)
+		verifPoint("before-write-file")
 		if err := os.WriteFile(path, b, os.ModePerm); err != nil {
 			return err
 		}
+		verifPoint("after-write-file")
 		d.log.Infof("Written file %s", file)
 	}
 
+	verifPoint("before-symlink")
 	if err := os.Symlink(newDir, d.target+".new"); err != nil {
 		return err
 	}
+	verifPoint("after-symlink")
 
 	d.log.Infof("Syslink %s to %s.new", newDir, d.target)
 
+	verifPoint("before-rename")
 	if err := os.Rename(d.target+".new", d.target); err != nil {
 		return err
 	}
+	verifPoint("after-rename")
 
 	d.log.Infof("Atomic write to %s", d.target)
 
 	if d.prev != nil {
+		verifPoint("before-remove-prev")
 		if err := os.RemoveAll(*d.prev); err != nil {
 			return err
 		}
+		verifPoint("after-remove-prev")
 	}
 
 	d.prev = &newDir
